@@ -1,0 +1,204 @@
+//! Verification hooks.
+//!
+//! This module only exists when the crate is built with
+//! `--cfg kaj_rsass_verif`.  It provides drop-in replacements for the
+//! `std::sync` types that guard process-wide state and for the random
+//! number source, so that a test harness can observe and control every
+//! synchronization operation and every random answer.
+//!
+//! With no hooks installed (and no scripted random answers) everything
+//! here simply delegates to `std` / `fastrand`.
+
+/// Replacements for `std::sync::{Mutex, LazyLock}` that report to
+/// installable [`SchedHooks`](sync::SchedHooks).
+pub mod sync {
+    pub use std::sync::Arc;
+    use std::fmt;
+    use std::ops::{Deref, DerefMut};
+    use std::sync::OnceLock;
+    use std::sync::atomic::{AtomicBool, Ordering};
+
+    /// Callbacks around synchronization operations.
+    ///
+    /// `addr` identifies the object (its address).  `before_*` calls are
+    /// scheduling points: an implementation may block the calling thread
+    /// there until it is allowed to proceed.
+    pub trait SchedHooks: Sync + Send {
+        /// Called before a mutex is locked.
+        fn before_lock(&self, addr: usize);
+        /// Called after a mutex was acquired.
+        fn after_lock(&self, addr: usize);
+        /// Called after a mutex was released.
+        fn after_unlock(&self, addr: usize);
+        /// Called before a lazy value that is not yet initialized is forced.
+        fn before_lazy_init(&self, addr: usize);
+        /// Called after a lazy value was forced.
+        fn after_lazy_init(&self, addr: usize);
+    }
+
+    static HOOKS: OnceLock<&'static dyn SchedHooks> = OnceLock::new();
+
+    /// Install hooks for the rest of the process.
+    /// Returns false if hooks were already installed.
+    pub fn install_hooks(hooks: &'static dyn SchedHooks) -> bool {
+        HOOKS.set(hooks).is_ok()
+    }
+
+    fn hooks() -> Option<&'static dyn SchedHooks> {
+        HOOKS.get().copied()
+    }
+
+    /// Error returned by [`Mutex::lock`] when a previous holder panicked.
+    #[derive(Debug)]
+    pub struct Poisoned;
+
+    /// A mutex reporting lock / unlock to the installed hooks.
+    #[derive(Default)]
+    pub struct Mutex<T> {
+        inner: std::sync::Mutex<T>,
+    }
+
+    impl<T> Mutex<T> {
+        /// Create a new mutex.
+        pub const fn new(value: T) -> Self {
+            Self {
+                inner: std::sync::Mutex::new(value),
+            }
+        }
+        fn addr(&self) -> usize {
+            std::ptr::from_ref(self) as usize
+        }
+        /// Lock the mutex.
+        pub fn lock(&self) -> Result<MutexGuard<'_, T>, Poisoned> {
+            let addr = self.addr();
+            let hooks = hooks();
+            if let Some(h) = hooks {
+                h.before_lock(addr);
+            }
+            let guard = self.inner.lock().map_err(|_| Poisoned)?;
+            if let Some(h) = hooks {
+                h.after_lock(addr);
+            }
+            Ok(MutexGuard {
+                guard: Some(guard),
+                addr,
+            })
+        }
+    }
+
+    impl<T: fmt::Debug> fmt::Debug for Mutex<T> {
+        fn fmt(&self, f: &mut fmt::Formatter<'_>) -> fmt::Result {
+            self.inner.fmt(f)
+        }
+    }
+
+    /// Guard for a locked [`Mutex`].
+    pub struct MutexGuard<'a, T> {
+        guard: Option<std::sync::MutexGuard<'a, T>>,
+        addr: usize,
+    }
+
+    impl<T> Deref for MutexGuard<'_, T> {
+        type Target = T;
+        fn deref(&self) -> &T {
+            self.guard.as_ref().unwrap()
+        }
+    }
+    impl<T> DerefMut for MutexGuard<'_, T> {
+        fn deref_mut(&mut self) -> &mut T {
+            self.guard.as_mut().unwrap()
+        }
+    }
+    impl<T> Drop for MutexGuard<'_, T> {
+        fn drop(&mut self) {
+            drop(self.guard.take());
+            if let Some(h) = hooks() {
+                h.after_unlock(self.addr);
+            }
+        }
+    }
+
+    /// A lazily initialized value reporting its initialization to the
+    /// installed hooks.
+    pub struct LazyLock<T, F = fn() -> T> {
+        inner: std::sync::LazyLock<T, F>,
+        done: AtomicBool,
+    }
+
+    impl<T, F: FnOnce() -> T> LazyLock<T, F> {
+        /// Create a new lazy value.
+        pub const fn new(f: F) -> Self {
+            Self {
+                inner: std::sync::LazyLock::new(f),
+                done: AtomicBool::new(false),
+            }
+        }
+    }
+
+    impl<T, F: FnOnce() -> T> Deref for LazyLock<T, F> {
+        type Target = T;
+        fn deref(&self) -> &T {
+            if self.done.load(Ordering::Acquire) {
+                return &self.inner;
+            }
+            let addr = std::ptr::from_ref(self) as usize;
+            let hooks = hooks();
+            if let Some(h) = hooks {
+                h.before_lazy_init(addr);
+            }
+            let value = std::sync::LazyLock::force(&self.inner);
+            self.done.store(true, Ordering::Release);
+            if let Some(h) = hooks {
+                h.after_lazy_init(addr);
+            }
+            value
+        }
+    }
+}
+
+/// Replacement for the parts of `fastrand` used by this crate: answers
+/// can be scripted per thread, otherwise the real generator is used.
+pub mod fastrand {
+    use std::cell::RefCell;
+    use std::collections::VecDeque;
+    use std::ops::Range;
+
+    thread_local! {
+        static F64S: RefCell<VecDeque<f64>> = const { RefCell::new(VecDeque::new()) };
+        static I64S: RefCell<VecDeque<i64>> = const { RefCell::new(VecDeque::new()) };
+    }
+
+    /// Queue answers for coming `f64()` calls on this thread.
+    pub fn script_f64(answers: &[f64]) {
+        F64S.with(|q| q.borrow_mut().extend(answers.iter().copied()));
+    }
+    /// Queue answers for coming `i64(range)` calls on this thread.
+    /// Each answer must lie in the range it is used for.
+    pub fn script_i64(answers: &[i64]) {
+        I64S.with(|q| q.borrow_mut().extend(answers.iter().copied()));
+    }
+    /// Drop all queued answers of this thread; returns how many were left.
+    pub fn clear_script() -> usize {
+        F64S.with(|q| q.borrow_mut().drain(..).count())
+            + I64S.with(|q| q.borrow_mut().drain(..).count())
+    }
+
+    /// A random `f64` in `[0, 1)`.
+    pub fn f64() -> f64 {
+        F64S.with(|q| q.borrow_mut().pop_front())
+            .unwrap_or_else(::fastrand::f64)
+    }
+    /// A random `i64` in the given range.
+    pub fn i64(range: Range<i64>) -> i64 {
+        match I64S.with(|q| q.borrow_mut().pop_front()) {
+            Some(v) => {
+                assert!(
+                    range.contains(&v),
+                    "scripted random answer {v} outside {range:?}",
+                );
+                v
+            }
+            None => ::fastrand::i64(range),
+        }
+    }
+}
